@@ -240,3 +240,34 @@ def register(add):
         "from the tree.",
         "DESIGN.md 3/C10",
     )
+    add(
+        "C12",
+        "exploration",
+        "offline history checker: outcome = f(NCP script), attempt spacing, bookkeeping conservation, non-interleaving of set-up frames; byte-level independent codec for sendUnicast / messageSentHandler; versions 4..14",
+        "ControllerApplication + real EZSP in frame mode, virtual time.  Concurrent send_packet calls (unicast "
+        "with/without source route and extended timeout, IEEE-addressed, multicast, broadcast) against an NCP "
+        "that follows a per-request script of enqueue statuses (accepted, three busy statuses, three refusals, "
+        "up to three attempts) and a confirmation behaviour (success, failure, none, duplicate, other tag, other "
+        "destination, unsolicited, before the enqueue reply, after the timeout).  Oracle: returns iff accepted and "
+        "own (destination, tag) confirmation with success; DeliveryError on refusal, busy after len(RETRY_DELAYS) "
+        "attempts spaced at least the configured delays, or failed confirmation; TimeoutError APS_ACK_TIMEOUT "
+        "after acceptance otherwise; multicast/broadcast return on acceptance; the pending table is empty "
+        "afterwards; the send frame carries the packet's payload and APS fields; set-up and send frames of "
+        "different requests never interleave (keep-alives may).",
+        "Trusted: zigpy.util.Requests shim; byte layouts in this check; NCP model for everything else.",
+        "DESIGN.md 3/C12",
+    )
+    add(
+        "C13",
+        "exploration",
+        "differential monitor: byte-level independently encoded callbacks injected through EZSP.frame_received vs packets / join / leave events recorded at the zigpy boundary, every version",
+        "The application is started through connect()/start_network() against the NCP model; packet_received, "
+        "handle_join and handle_leave are replaced by recorders.  incomingMessageHandler frames with all 256 "
+        "message-type values, random addresses/endpoints/profile/cluster/group/sequence, LQI and RSSI extremes and "
+        "payloads 0..254 bytes, and trustCenterJoinHandler frames over all status x decision combinations, are "
+        "encoded at byte level in the pre-v14 and v14 field orders.  Oracle: exactly one packet for unicast / "
+        "multicast / broadcast with all fields equal and the destination reflecting the type, none otherwise; "
+        "leave for DEVICE_LEFT, nothing for denied joins, join(nwk, ieee, parent) otherwise.",
+        "Trusted: callback byte layouts (UG100) in this check; zigpy.util.Requests shim; NCP model for start-up.",
+        "DESIGN.md 3/C13",
+    )
